@@ -155,6 +155,7 @@ theorem needLoop_total (e : Enc) {b : SecBuf} (hs : Sec b) {d : Bytes} (hd : b.d
   | succ k ih =>
     intro i pos va hp hf hi hva
     unfold TQ.needLoop
+    rw [TQTie.vr_i_incr_eq]
     by_cases hc : vr_loop_cond i no = true
     · rw [if_pos hc]
       have hlt : i.toNat < no.toNat := by simpa [vr_loop_cond, BitVec.ult] using hc
@@ -211,7 +212,7 @@ theorem needGet_total (e : Enc) (b : SecBuf) (hs : Sec b) (str : Option SecBuf) 
       show Elfxx_Verneed.vn_version_off = 0 from rfl, show Elfxx_Vernaux.vna_name_off = 8 from rfl,
       show Elfxx_Vernaux.vna_hash_off = 0 from rfl, show Elfxx_Vernaux.vna_flags_off = 4 from rfl,
       show Elfxx_Vernaux.vna_other_off = 6 from rfl]
-    rw [vrd32_ok hs hd _ 8 (by omega)]
+    rw [vrd32_ok hs hd _ 8 (by omega), TQTie.vr_i_init_eq, TQTie.vr_pos_init_eq]
     dsimp only
     obtain ⟨r, hr, hpost⟩ := needLoop_total e hs hd no (no.toNat + 1) 0 0
       ((vr_aux_off0 (cv32 e) (BitVec.ofNat 32 (hostDecode (slice d 8 4)))).toNat)
@@ -241,10 +242,10 @@ theorem needGet_total (e : Enc) (b : SecBuf) (hs : Sec b) (str : Option SecBuf) 
       rw [vrd32_ok hs hd _ _ (by omega), vrd32_ok hs hd _ _ (by omega)]
       dsimp only
       split
+      · exact ⟨_, rfl⟩
       · rw [vrd16_ok hs hd _ _ (by omega), vrd32_ok hs hd _ _ (by omega), vrd16_ok hs hd _ _ (by omega),
           vrd16_ok hs hd _ _ (by omega)]
         exact ⟨_, rfl⟩
-      · exact ⟨_, rfl⟩
 
 theorem defLoop_total (e : Enc) {b : SecBuf} (hs : Sec b) {d : Bytes} (hd : b.data = some d) (no : BitVec 32) :
     ∀ (fuel : Nat) (i : BitVec 32) (pos : BitVec 64) (va : Nat), pos.toNat + 20 ≤ b.size.toNat →
@@ -259,6 +260,7 @@ theorem defLoop_total (e : Enc) {b : SecBuf} (hs : Sec b) {d : Bytes} (hd : b.da
   | succ k ih =>
     intro i pos va hp hf hi hva
     unfold TQ.defLoop
+    rw [TQTie.vd_i_incr_eq]
     by_cases hc : vd_loop_cond i no = true
     · rw [if_pos hc]
       have hlt : i.toNat < no.toNat := by simpa [vd_loop_cond, BitVec.ult] using hc
@@ -314,7 +316,7 @@ theorem defGet_total (e : Enc) (b : SecBuf) (hs : Sec b) (str : Option SecBuf) (
     simp only [show Elfxx_Verdef.vd_aux_off = 12 from rfl, show Elfxx_Verdef.vd_flags_off = 2 from rfl,
       show Elfxx_Verdef.vd_ndx_off = 4 from rfl, show Elfxx_Verdef.vd_hash_off = 8 from rfl,
       show Elfxx_Verdaux.vda_name_off = 0 from rfl]
-    rw [vrd32_ok hs hd _ 12 (by omega)]
+    rw [vrd32_ok hs hd _ 12 (by omega), TQTie.vd_i_init_eq, TQTie.vd_pos_init_eq]
     dsimp only
     obtain ⟨r, hr, hpost⟩ := defLoop_total e hs hd no (no.toNat + 1) 0 0
       ((vd_aux_off0 (cv32 e) (BitVec.ofNat 32 (hostDecode (slice d 12 4)))).toNat)
